@@ -324,12 +324,13 @@ static void checkC10(Ctx& c, long idx, Rng& r) {
       c.check("motion-power", std::fabs(matter.calcMotionPower(s) - pw), 1e-12 * (tauScale * (1 + vmaxabs(s.getU())) * nu), W("calcMotionPower != -tau.u")); }
 
     // constraint consistency guard: rows of G restricted to the free udots must have full rank
-    const int m = s.getNUDotErr(); bool consOK = true;
+    const int m = s.getNUDotErr(); bool consOK = true; double rowMinRatio = 1;
     if (m > 0) {
         Matrix G; matter.calcG(s, G); std::vector<int> F; for (int i = 0; i < nu; ++i) if (freeUD[i]) F.push_back(i);
         std::vector<std::vector<double>> rows; for (int j = 0; j < m; ++j) { std::vector<double> row; for (int i : F) row.push_back(G(j, i)); rows.push_back(row); }
         double gfull = 0; for (int j = 0; j < m; ++j) { double sq = 0; for (int i = 0; i < nu; ++i) sq += G(j, i) * G(j, i); gfull = std::max(gfull, std::sqrt(sq)); }
         int rank = 0; double minr = 0; if (!F.empty()) rangeResidual(rows, std::vector<double>(F.size(), 0.0), &rank, &minr, std::max(gfull, 1e-3));   // absolute floor: an all-zero row (constraint between welded bodies) is rank deficient
+        rowMinRatio = minr;
         if (rank < m || minr < 1e-4) { consOK = false; c.skip("constraints-rank-deficient-on-free-mobilities"); c.obs("rank-deficient:" + ckey); }
         else {
             double gs = mmaxabs(G) * ascale + 1;
@@ -361,7 +362,9 @@ static void checkC10(Ctx& c, long idx, Rng& r) {
         try { T.m.sys.realize(t, Stage::Acceleration); } catch (const std::exception& e) { ok = false; c.obs("twin-realize-exception"); }
         if (ok && allFinite(t.getUDot())) {
             double condC = m ? 100 : 1;
-            c.check("equivalence:twin-with-minus-tau:udot", vecDiff(t.getUDot(), udot), tol * ascale * condC * (1 + tauScale / fscale), W("free model driven by (f - tau) does not reproduce the prescribed model's udot"));
+            double tolE = tol * ascale * condC * (1 + tauScale / fscale), resE = vecDiff(t.getUDot(), udot);
+            if (c.args.verbose && resE > 1e-3 * tolE) fprintf(stderr, "case %ld equivalence ratio %.3g cond %.3g m %d minr %.3g cons %s ascale %.3g tauScale %.3g\n", c.curCase, resE / tolE, cond, m, rowMinRatio, ckey.c_str(), ascale, tauScale);
+            c.check("equivalence:twin-with-minus-tau:udot", resE, tolE, W("free model driven by (f - tau) does not reproduce the prescribed model's udot"));
         } else c.skip("twin-not-realizable");
         // (E2) disable/unlock restores the never-prescribed behaviour
         c.setPhase("restore");
